@@ -200,10 +200,16 @@ def kd_recursion(P, rep, F, rule):
         lower_half = (a_l - L == 0) and (a_r - (M - 1) == 0)
         upper_half = (a_l - (M + 1) == 0) and (a_r - Rr == 0)
         guarded = False
+        from .guard import expand_cond
         for a in F.ancestors(c):
             if a.get("k") == "IfStmt":
-                for x in conj_list(a["c"][0]):
+                # only the then-branch is guarded by the condition; named bools stand for what they name
+                if a["c"][1] is None or not any(z is c for z in F.walk(a["c"][1])):
+                    continue
+                for x in conj_list(expand_cond(P, F, a["c"][0])):
                     x = sc(x)
+                    if x.get("k") == "DeclRefExpr":
+                        x = sc(expand_cond(P, F, x))
                     if x.get("k") == "BinaryOperator":
                         l0, r0, op = sc(x["c"][0]), sc(x["c"][1]), x["op"]
                         if lower_half and ((op == "<" and astq.is_ref_to(l0, left) and astq.is_ref_to(r0, mid)) or (op == ">" and astq.is_ref_to(l0, mid) and astq.is_ref_to(r0, left))
